@@ -19,6 +19,7 @@ echo "== demo with the change (expect FAIL)"
 if timeout 600 go test -count=1 -run "$RX" $PKG > $W.mut.log 2>&1; then echo MUTANT=PASS; else echo MUTANT=FAIL; grep -m5 -- "--- FAIL\|panic:\|FAIL" $W.mut.log; fi
 for f in $S/*_test.go; do rm -f $PLACE/$(basename $f); done
 echo "== baseline suite with the change"
+if [ -n "$NOSUITE" ]; then echo "SUITE skipped (NOSUITE set)"; exit 0; fi
 go test -mod=mod -json -vet=off -count=1 -timeout 25m ./... > $W.suite.json 2>/dev/null
 python3 - $W.suite.json <<'PY'
 import json,sys
